@@ -20,7 +20,8 @@ build() { # $1 = output, $2... = extra flags
 if [ "${1:-}" = setup ]; then
   build "$BIN/vcheck-setup" || { echo "setup: build failed"; exit 2; }
   build "$BIN/vcheck-setup-race" -race || { echo "setup: race build failed"; exit 2; }
-  rm -f "$BIN/vcheck-setup" "$BIN/vcheck-setup-race"
+  (cd "$ROOT/harness" && GOARCH=386 go build -tags verif -o "$BIN/vcheck-setup-386" ./cmd/vcheck) 2>/dev/null || echo "setup: no 386 cross build (word-size variant of C07 will be skipped)"
+  rm -f "$BIN/vcheck-setup" "$BIN/vcheck-setup-race" "$BIN/vcheck-setup-386"
   echo "setup ok"
   exit 0
 fi
@@ -41,6 +42,16 @@ case "$PROP" in
       exit 2
     fi
     export VCHECK_RACE_BIN="$BIN/vcheck-$PROP-race"
+    ;;
+esac
+case "$PROP" in
+  C07)
+    # the same harness for a 32-bit platform (GOARCH=386 binaries run on this kernel): word-size variant of the
+    # high-resolution cases; if the cross build is not possible the check runs without it and says so in its evidence
+    if (cd "$ROOT/harness" && GOARCH=386 go build -tags verif -o "$BIN/vcheck-$PROP-386.tmp.$$" ./cmd/vcheck) 2>"$BIN/build-$PROP-386.log"; then
+      mv -f "$BIN/vcheck-$PROP-386.tmp.$$" "$BIN/vcheck-$PROP-386"
+      export VCHECK_386_BIN="$BIN/vcheck-$PROP-386"
+    fi
     ;;
 esac
 if [ "$MODE" = replay ]; then
